@@ -82,7 +82,7 @@ def build(spec):
         As.append(a)
         lams.append(lam)
     A = torch.stack(As).reshape(*batch, n, n)
-    # right-hand sides: column kinds n(ormal) z(ero) t(iny 1e-12) h(uge 1e12) s(mall 1e-7)
+    # right-hand sides: column kinds n(ormal) z(ero) t(iny 1e-12) h(uge 1e12) s(mall 1e-7) 5..9 (1e-5 .. 1e-9)
     rb = batch if (spec.get("rhs_batch", "full") == "full") else ()
     RB = prod(rb)
     cols = []
@@ -100,6 +100,10 @@ def build(spec):
             v = v * 1e12
         elif kd == "s":
             v = v * 1e-7
+        elif kd in "56789":
+            # norm ~ 1e-<digit>: tiny but far above the rhs_is_zero threshold eps = 1e-10 (the ladder 1e-5 .. 1e-9 spans the
+            # range between that threshold and float32 machine epsilon 1.2e-7, where a dtype-dependent test would differ)
+            v = v * 10.0 ** (-int(kd))
         cols.append(v)
     rhs = torch.stack(cols, dim=-1).reshape(*rb, n, c)
     rhs_full = rhs
@@ -322,6 +326,44 @@ def run_impl(spec, T, max_iter="spec", rhs_scale=None):
         obs["mm_calls"] = mmr.calls
     if prr is not None:
         obs["pre_calls"] = prr.calls
+    return obs
+
+
+def run_op(spec, T, entry, debug):
+    """the same solve through the operator-level entry points of the property (anchor _linear_operator.py): a dense
+    LinearOperator on the CG path (max_cholesky_size(0)); every limit comes from the settings, as LinearOperator._solve
+    passes them.  entry: solve | _solve | inv_quad.  Returns {err, res, warn}."""
+    import contextlib
+    from linear_operator import settings
+    from linear_operator.operators import DenseLinearOperator
+    from linear_operator.utils.warnings import NumericalWarning
+    dt = torch.float32 if spec.get("dtype") == "float32" else F64
+    A = T["A"].to(dt)
+    rhs = T["rhs"].to(dt)
+    op = DenseLinearOperator(A)
+    prr = None
+    if T["Minv"] is not None:
+        prr = Rec(T["Minv"].to(dt), "fresh", len(spec["batch"]))
+    obs = {"err": None, "res": None, "warn": False}
+    with settings_ctx(spec), settings.max_cholesky_size(0), settings.debug(bool(debug)):
+        with warnings.catch_warnings(record=True) as wl:
+            warnings.simplefilter("always")
+            try:
+                if entry == "solve":
+                    out = op.solve(rhs)
+                elif entry == "_solve":
+                    out = op._solve(rhs, prr)
+                elif entry == "inv_quad":
+                    out = op.inv_quad(rhs)
+                else:
+                    raise ValueError(entry)
+            except Exception as ex:  # noqa
+                msg = str(ex)
+                kind = next((k for k, pat in ERR_PAT if pat in msg and isinstance(ex, RuntimeError)), None)
+                obs["err"] = kind or ("other:" + type(ex).__name__ + ":" + msg[:160])
+                out = None
+    obs["warn"] = any(issubclass(w.category, NumericalWarning) for w in wl)
+    obs["res"] = out
     return obs
 
 
